@@ -216,10 +216,26 @@ def random_layout(case: dict, rng: random.Random) -> dict:
     return {"kind": case["kind"], "scheme": "random", "toks": toks, "src": "random"}
 
 
-def sig_of(rec: dict) -> str:
-    return "sentence=" + " ".join(t["t"].replace("\n", "\\n") + {"z": "", "s": "_", "ss": "__", "n": "/", "ns": "/_", "t": "\\t",
-                                                                 "nn": "//"}[t["ws"]] for t in rec["toks"]) + \
-        f"|prefix={rec['prefix_id']}"
+SCHEME_RANK = {"lines": 0, "commas": 1, "mixed": 2, "wide": 3, "random": 4}
+
+
+def sentence_of(rec: dict) -> str:
+    return " ".join(t["t"].replace("\n", "\\n") + {"z": "", "s": "_", "ss": "__", "n": "/", "ns": "/_", "t": "\\t",
+                                                     "nn": "//"}[t["ws"]] for t in rec["toks"])
+
+
+def sig_of(rec: dict, conj: str) -> str:
+    # tier-independent: the range conjunct depends on the text before the literal only, the others on the literal only
+    if conj == "edit_range":
+        return f"prefix={rec['prefix_id']}|sentence={sentence_of(rec)}"
+    return "sentence=" + sentence_of(rec)
+
+
+def order_of(rec: dict, conj: str):
+    base = ({"probe": 0, "model": 1, "random": 2}[rec["src"]],)
+    if conj == "edit_range":
+        return base + (rec["prefix_id"], len(rec["toks"]), SCHEME_RANK[rec["scheme"]], sentence_of(rec))
+    return base + (len(rec["toks"]), SCHEME_RANK[rec["scheme"]], sentence_of(rec), rec["prefix_id"])
 
 
 def run(chk: vlib.Check) -> None:
@@ -231,15 +247,31 @@ def run(chk: vlib.Check) -> None:
         raise vlib.ToolError("MCIsoFormat emitted no CASE")
     for c in cases:
         c["src"] = "model"
+    nmodel = len(cases)
     nrand = 400 if chk.tier == "quick" else 6000
-    cases += [random_layout(rng.choice(cases[:len(cases)]), rng) for _ in range(nrand)]
+    cases += [random_layout(rng.choice(cases[:nmodel]), rng) for _ in range(nrand)]
+    # probes: two fixed sentences under every prefix, the same in both tiers, so that the smallest failing case of the
+    # range conjunct (and with it the signature) does not depend on which prefix the enumeration happened to pair
+    # with which sentence
+    def is_probe(c):
+        kinds = [t["k"] for t in c["toks"]]
+        return (c["scheme"] == "lines" and kinds == ["KW_USE", "TYPE", "DOT", "CNAME"]) or \
+               (c["scheme"] == "commas" and c["kind"] == "field" and "\n" not in c["toks"][4]["t"] and
+                kinds == ["KW_DECL", "TYPE", "DOT", "CNAME", "COMMENT", "OBRACE", "SEL", "COMMA", "CBRACE"])
+    probes = [c for c in cases[:nmodel] if is_probe(c)]
+    if len(probes) != 2:
+        raise vlib.ToolError("probe sentences not found among the generated sentences")
+    for c in probes:
+        for pid in range(len(PREFIXES)):
+            cases.append({**c, "src": "probe", "force_prefix": pid})
     proj = textfn.lsp_project(chk)
 
     # pass 1
     pass1 = []
     for n, c in enumerate(cases):
         lit = literal_text(c["toks"])
-        pid = n % len(PREFIXES) if c["src"] == "model" else rng.randrange(len(PREFIXES))
+        pid = c["force_prefix"] if c["src"] == "probe" else \
+            n % len(PREFIXES) if c["src"] == "model" else rng.randrange(len(PREFIXES))
         doc = embed(c["kind"], lit, PREFIXES[pid])
         pass1.append({"doc": [ord(ch) for ch in doc], "want_decl": True, "want_diags": False, "n": n, "prefix_id": pid})
     out1 = textfn.run_harness(bindir, "textfn_lsp", pass1, args=[str(proj)], timeout=1500)
@@ -282,11 +314,15 @@ def run(chk: vlib.Check) -> None:
         i0 = drifts[0][0]
         chk.drift({"what": drifts[0][1]["what"], "records": len(drifts), "example": literal_text(records[i0]["toks"]),
                    "real": "".join(chr(x) for x in records[i0]["fmt1"])})
-    textfn.report_failures(
-        chk, records, fails,
+    by_conj: dict = {}
+    for idx, p in fails:
+        by_conj.setdefault(p["conj"], []).append((idx, p))
+    for conj in sorted(by_conj):
+      textfn.report_failures(
+        chk, records, by_conj[conj],
         group_key=lambda rec, p: (p["conj"], p["cls"]),
-        order_key=lambda rec: (0 if rec["src"] == "model" else 1, len(rec["toks"]), rec["prefix_id"], sig_of(rec)),
-        signature=lambda rec, p: f"C22|{p['conj']}|{p['cls']}|{sig_of(rec)}",
+        order_key=lambda rec, conj=conj: order_of(rec, conj),
+        signature=lambda rec, p: f"C22|{p['conj']}|{p['cls']}|{sig_of(rec, p['conj'])}",
         what=lambda rec, p, n: (f"formatter breaks '{p['conj']}' on {n} recorded literal(s) of class '{p['cls']}'; smallest literal: "
                                 f"{literal_text(rec['toks'])!r} with {PREFIXES[rec['prefix_id']]!r} before the iso call -> formatted "
                                 f"{''.join(chr(x) for x in rec['fmt1'])!r}, formatted again "
@@ -300,7 +336,7 @@ def run(chk: vlib.Check) -> None:
                 "(none, string, multi-line block string, non-ASCII) x selection-set bodies (aliases, arguments with every value "
                 "kind, directives, nested selection sets) x layout schemes; random cases: the same sentences with random "
                 "separators per gap.",
-        "model_cases": sum(1 for c in cases if c["src"] == "model"), "random_cases": nrand,
+        "model_cases": nmodel, "random_cases": nrand, "probe_cases": len(cases) - nmodel - nrand,
         "accepted_by_parser": len(records), "rejected_by_parser": rejected, "no_edit": noedit,
         "trusted_base": ["harness/h_textfn/src/bin/lsp.rs", "engines/lspformat.py: Rust Debug text -> tree -> positions stripped "
                          "(fields " + ", ".join(sorted(DROP_FIELDS)) + ") -> pre-order atoms; application of the edit at the "
